@@ -243,14 +243,25 @@ func c13GenClass(s, g jv, inst jv, flags string) string {
 // argument that is error("disallowed") (an unsatisfiable if / then / else).
 func c13AstFlags(f *ast.File) string {
 	flag := ""
+	hasErrorCall := func(e ast.Expr) bool {
+		found := false
+		ast.Walk(e, func(n ast.Node) bool {
+			if c, ok := n.(*ast.CallExpr); ok {
+				if id, ok := c.Fun.(*ast.Ident); ok && id.Name == "error" {
+					found = true
+				}
+			}
+			return true
+		}, nil)
+		return found
+	}
 	ast.Walk(f, func(n ast.Node) bool {
 		if c, ok := n.(*ast.CallExpr); ok {
 			if id, ok := c.Fun.(*ast.Ident); ok && id.Name == "matchIf" {
 				for _, a := range c.Args {
-					if ac, ok := a.(*ast.CallExpr); ok {
-						if aid, ok := ac.Fun.(*ast.Ident); ok && aid.Name == "error" {
-							flag = "matchIf-error-arg"
-						}
+					// error("disallowed") anywhere in an argument (e.g. inside list.MatchN(>=1, error(…)))
+					if hasErrorCall(a) {
+						flag = "matchIf-error-arg"
 					}
 				}
 			}
@@ -277,11 +288,22 @@ var c13Corpus = []c13Fixed{
 	{`{"propertyNames":false}`, []string{`{}`, `{"a":1}`, `1`}},
 	{`{"allOf":[true,{"minimum":3},{"maximum":5}]}`, []string{`4`, `1`, `"a"`}},
 	{`{"allOf":[{"type":"number"},{"minimum":3}]}`, []string{`4`, `1`, `"a"`}},
+	{`{"allOf":[{"type":"string"},false]}`, []string{`""`, `1`}},
+	{`{"properties":{"x":{"oneOf":[false]}}}`, []string{`{"x":1}`, `{}`}},
 	{`{"oneOf":[{"type":"number"},{"minimum":3}]}`, []string{`1`, `5`, `"a"`}},
 	{`{"anyOf":[{"type":"number"},{"minimum":3}]}`, []string{`1`, `5`, `"a"`}},
 	{`{"not":{"not":{"type":"number"}}}`, []string{`1`, `"a"`}},
 	{`{"if":{"not":{}},"then":{"not":{}},"else":{"type":"number"}}`, []string{`1`, `"a"`}},
 	{`{"if":{"type":"number"},"then":{"minimum":3},"else":{"type":"string"}}`, []string{`1`, `5`, `"a"`, `null`}},
+	{`{"properties":{"a":{"if":false,"else":{"type":"string"}}}}`, []string{`{"a":1}`, `{"a":"x"}`}},
+	{`{"items":{"if":{"const":10},"then":{"enum":[true,null]}}}`, []string{`[1]`, `[10]`}},
+	{`{"enum":[{},3],"minimum":-1}`, []string{`{"c":null}`, `{}`, `3`}},
+	{`{"additionalProperties":false,"allOf":[{"pattern":"^$"}]}`, []string{`{"ab":null}`, `{}`}},
+	{`{"additionalProperties":false,"required":["a"]}`, []string{`{"a":1}`, `{}`}},
+	{`{"contains":{"minProperties":1}}`, []string{`[{}]`, `[{"a":1}]`}},
+	{`{"enum":[{"a":null},null,{}]}`, []string{`{}`, `{"a":null}`, `null`}},
+	{`{"$defs":{"d":{"maxProperties":2}},"$ref":"#/$defs/d"}`, []string{`{"a":1}`, `{}`}},
+	{`{"$defs":{"d":{"maxItems":1}},"$ref":"#/$defs/d"}`, []string{`[[]]`, `[1]`, `[1,2]`}},
 	{`{"properties":{"a":{"type":"string"}},"patternProperties":{"^a":{"minLength":2}},"additionalProperties":false}`, []string{`{"a":"x"}`, `{"a":"xx"}`, `{"ab":"xx"}`, `{"b":1}`, `{"ab":1}`}},
 	{`{"properties":{"a":true},"patternProperties":{"^a":true},"additionalProperties":{"type":"number"}}`, []string{`{"a":"x","ab":"y","b":1}`, `{"b":"x"}`}},
 	{`{"minLength":2,"maxLength":2}`, []string{`"a"`, `"ab"`, `"😀"`, `"😀😀"`, `"😀😀😀"`, `1`}},
@@ -442,8 +464,8 @@ func shapeOfTop(top ast.Expr) string {
 	}
 	var conj []ast.Expr
 	flattenBin(e, token.AND, &conj)
-	// the type disjunction, if any, is the last conjunct; but a lone conjunction of
-	// type-specific constraints (single allowed type) is a disjunction with one member
+	// the all-constraints (enum disjunctions of literals) come first; what follows is the type
+	// disjunction, or — when a single type is left — the conjunction of its constraints
 	var parts []string
 	nA := 0
 	for nA < len(conj) && isEnumConjunct(conj[nA]) {
@@ -452,9 +474,6 @@ func shapeOfTop(top ast.Expr) string {
 	}
 	rest := conj[nA:]
 	if len(rest) > 0 {
-		// re-associate: everything after the all-constraints is ONE disjunction whose last
-		// member may itself be a conjunction (a & b | c parses as (a&b)|c, so only the case
-		// of a single disjunct needs joining)
 		if len(rest) == 1 {
 			var ds []ast.Expr
 			flattenBin(rest[0], token.OR, &ds)
